@@ -33,6 +33,10 @@ TaggedCover(reads, B, s, j) ==
 OrderRestored(V0, U, W) ==
     \A j \in Sites(W) : (W[j].ph /\ ~U[j].ph /\ V0[j].ph) => W[j].al = V0[j].al
 
+(* ... the genotype it had (multi-allelic records: 1|2 must not come out as 0|1) *)
+AllelesKept(V0, U, W) ==
+    \A j \in Sites(W) : (W[j].ph /\ ~U[j].ph) => SameBag(W[j].al, V0[j].al)
+
 (* ... and the phase set of the reads covering it *)
 SetOfCoveringReads(reads, B, s, U, W) ==
     \A j \in Sites(W) : (W[j].ph /\ ~U[j].ph) =>
@@ -46,7 +50,9 @@ PrephasedUntouched(U, W) ==
 (* premise of the statement: no read overlaps two phase sets of V0.  Made precise: phase sets are
    separated by gaps no read spans, i.e. the reads (templates: mates share tpl) that cover one
    site touch, all together, at most one phase set *)
-TouchedSets(v, rd) == { v[j].ps : j \in { i \in CovSet(rd) : v[i].ph /\ Het(v[i].al) } }
+(* haplotag reads bi-allelic records only; haplotagphase also votes on multi-allelic ones *)
+Biallelic(al) == \A x \in DOMAIN al : al[x] \in {0, 1}
+TouchedSets(v, rd) == { v[j].ps : j \in { i \in CovSet(rd) : v[i].ph /\ Het(v[i].al) /\ Biallelic(v[i].al) } }
 TemplateSets(reads, V0s, r) ==
     UNION { TouchedSets(V0s[reads[q].smp], reads[q]) : q \in { x \in DOMAIN reads : reads[x].tpl = reads[r].tpl } }
 SetsSeparated(reads, V0s) ==
@@ -57,7 +63,7 @@ SetsSeparated(reads, V0s) ==
 -----------------------------------------------------------------------------
 (* the design of the commands, on one sample *)
 Agree(v, rd, p, h) ==
-    Cardinality({ j \in CovSet(rd) : v[j].ph /\ Het(v[j].al) /\ v[j].ps = p /\ Shown(rd, j) = v[j].al[h] })
+    Cardinality({ j \in CovSet(rd) : v[j].ph /\ Het(v[j].al) /\ Biallelic(v[j].al) /\ v[j].ps = p /\ Shown(rd, j) = v[j].al[h] })
 
 (* haplotag: any touched set with a maximal top score; tag iff the best haplotype is unique *)
 TagChoices(v, rd) ==
@@ -77,11 +83,13 @@ UnphaseCall(c) == Call(FALSE, 0, Sorted2(c.al))
 (* unphase everything but the sets in keep (keep = {} is `whatshap unphase`) *)
 UnphaseOp(v, keep) == [ j \in DOMAIN v |-> IF v[j].ph /\ v[j].ps \in keep THEN v[j] ELSE UnphaseCall(v[j]) ]
 
-(* haplotagphase: quality-weighted votes per (PS, haplotype xor allele); all qualities equal here *)
-Votes(reads, B, s, j, p, a0) ==
+(* haplotagphase: quality-weighted votes per (PS, haplotype xor allele index); the allele index is the position of
+   the shown allele in the sorted genotype (0/1, 0/2, 1/2 ...); all qualities equal here *)
+AlleleId(al, x) == IF x = Sorted2(al)[1] THEN 0 ELSE 1
+Votes(reads, B, s, u, j, p, a0) ==
     Cardinality({ r \in DOMAIN reads : /\ r \in TaggedCover(reads, B, s, j)
                                        /\ B[r].ps = p
-                                       /\ ((B[r].hp - 1) + Shown(reads[r], j)) % 2 = a0 })
+                                       /\ ((B[r].hp - 1) + AlleleId(u[j].al, Shown(reads[r], j))) % 2 = a0 })
 VoteKeys(reads, B, s, j) == { B[r].ps : r \in TaggedCover(reads, B, s, j) } \X {0, 1}
 TotalVotes(reads, B, s, j) ==
     Cardinality(TaggedCover(reads, B, s, j))
@@ -89,8 +97,8 @@ TotalVotes(reads, B, s, j) ==
 PhaseCallChoices(reads, B, s, u, j, threshold) ==
     IF u[j].ph \/ ~Het(u[j].al) \/ TaggedCover(reads, B, s, j) = {} THEN { u[j] }
     ELSE LET K == VoteKeys(reads, B, s, j)
-             best == { k \in K : \A q \in K : Votes(reads, B, s, j, q[1], q[2]) <= Votes(reads, B, s, j, k[1], k[2]) } IN
-         { IF 100 * Votes(reads, B, s, j, k[1], k[2]) < threshold * TotalVotes(reads, B, s, j)
+             best == { k \in K : \A q \in K : Votes(reads, B, s, u, j, q[1], q[2]) <= Votes(reads, B, s, u, j, k[1], k[2]) } IN
+         { IF 100 * Votes(reads, B, s, u, j, k[1], k[2]) < threshold * TotalVotes(reads, B, s, j)
            THEN u[j]
-           ELSE Call(TRUE, k[1], << k[2], 1 - k[2] >>) : k \in best }
+           ELSE Call(TRUE, k[1], << Sorted2(u[j].al)[k[2] + 1], Sorted2(u[j].al)[2 - k[2]] >>) : k \in best }
 =============================================================================
